@@ -4,7 +4,7 @@ from __future__ import annotations
 import ast
 
 from engine.defuse import value_sources
-from engine.flow import dominating_guards, reachable_from_entry, returns_of
+from engine.flow import dominating_guards, expand_aliases, reachable_from_entry, returns_of
 from engine.model import AnalysisError
 from . import c01, c02
 
@@ -61,6 +61,11 @@ def nonneg_quantity(e) -> bool:
     return False
 
 
+def expanded(fn, t):
+    """the test expression with local aliases of attribute chains (lower = self.min) written out"""
+    return expand_aliases(fn, t.ast, t)
+
+
 def check_bounds(ctx):
     an, model = ctx.an, ctx.model
     Field = model.cls("Field")
@@ -80,10 +85,11 @@ def check_bounds(ctx):
             for t in g.nodes:
                 if t.kind != "test" or t not in reach or not isinstance(t.ast, ast.Compare) or len(t.ast.ops) != 1:
                     continue
-                sides = [t.ast.left, t.ast.comparators[0]]
+                tx = expanded(v, t)
+                sides = [tx.left, tx.comparators[0]]
                 idx = [i for i, s in enumerate(sides) if isinstance(s, ast.Attribute) and s.attr == attr
                        and isinstance(s.value, ast.Name) and s.value.id == v.self_name]
-                if idx and isinstance(t.ast.ops[0], (ast.Lt, ast.LtE, ast.Gt, ast.GtE)):
+                if idx and isinstance(tx.ops[0], (ast.Lt, ast.LtE, ast.Gt, ast.GtE)):
                     cmps.append((t, idx[0]))
             if not cmps:
                 ctx.ob("bound.checked", v, "self.%s" % attr, False,
@@ -91,8 +97,9 @@ def check_bounds(ctx):
                 continue
             for t, pos in cmps:
                 ninst += 1
-                q = t.ast.comparators[0] if pos == 0 else t.ast.left
-                op = t.ast.ops[0]
+                tx = expanded(v, t)
+                q = tx.comparators[0] if pos == 0 else tx.left
+                op = tx.ops[0]
                 # normalise to  Q <op> bound
                 if pos == 0:
                     op = {ast.Lt: ast.Gt, ast.Gt: ast.Lt, ast.LtE: ast.GtE, ast.GtE: ast.LtE}[type(op)]()
@@ -124,7 +131,7 @@ def check_bounds(ctx):
                 # presence guard
                 form = None
                 for d, tr in dominating_guards(an, v, t):
-                    e = d.ast
+                    e = expanded(v, d)
                     if isinstance(e, ast.Compare) and len(e.ops) == 1 and isinstance(e.left, ast.Attribute) and e.left.attr == attr \
                             and isinstance(e.comparators[0], ast.Constant) and e.comparators[0].value is None:
                         if (isinstance(e.ops[0], ast.IsNot) and tr) or (isinstance(e.ops[0], ast.Is) and not tr):
@@ -300,27 +307,72 @@ def check_bool_number(ctx):
            "token tables overlap or contain non-lower-case tokens: %s" % sorted(set(T) & set(F)))
     v = model.method("BoolField", "_validate")
     g = an.cfg(v)
-    for tbl, const in (("TRUE_VALUES", True), ("FALSE_VALUES", False)):
-        found = False
-        for t in g.nodes:
-            if t.kind == "test" and isinstance(t.ast, ast.Compare) and isinstance(t.ast.ops[0], ast.In) and \
-                    isinstance(t.ast.comparators[0], ast.Attribute) and t.ast.comparators[0].attr == tbl:
-                lowered = any(isinstance(x, ast.Call) and isinstance(x.func, ast.Attribute) and x.func.attr in ("lower", "casefold") for x in ast.walk(t.ast.left))
-                for s, lbl in t.succ:
-                    if lbl is True and s.kind == "assign" and isinstance(s.ast.value, ast.Constant) and s.ast.value.value is const and lowered:
-                        found = True
-        ctx.ob("bool.token-maps", v, "token in %s -> %s" % (tbl, const), found, "case-insensitive tokens of %s give %s" % (tbl, const) if found else
-               "tokens of %s are not mapped (case-insensitively) to %s" % (tbl, const))
-    # bool first (bool is an int)
-    order = []
-    for t in g.nodes:
-        if t.kind == "test" and isinstance(t.ast, ast.Call) and ast.unparse(t.ast.func) == "isinstance":
-            order.append((t.lineno, ast.unparse(t.ast.args[1])))
-    order.sort()
-    names = [n for _, n in order]
-    okb = "bool" in names and all(names.index("bool") < i for i, n in enumerate(names) if "int" in n)
-    ctx.ob("bool.before-int", v, "isinstance(value, bool) tested before (int, float)", okb, "bool is recognised before the numeric branch" if okb else
-           "the numeric branch precedes the bool branch")
+    from engine.specialize import Spec
+    from .xmlfmt import writer_decider
+    vp = v.positional_params[2]
+
+    def is_value(sp, e, node):
+        srcs = sp.sources(e, node)
+        return bool(srcs) and all(k == "param" and p == vp for k, p in srcs)
+    for kind in ("bool", "int", "float", "str", "other"):
+        sp = Spec(an, v, writer_decider(an, v, vp, kind))
+        rets = sp.normal_returns()
+        if kind == "other":
+            ok = not rets and not sp.falls_off() and bool(sp.raises())
+            ctx.ob("bool.kinds", v, "value of another type", ok, "values that are neither bool, number nor str are rejected" if ok else
+                   "a value that is neither bool, number nor str can be accepted")
+            continue
+        if kind in ("bool", "int", "float"):
+            ok = bool(rets) and not sp.raises()
+            why = "%s values are accepted and converted with bool()" % kind
+            for r in rets:
+                for k, p in (sp.sources(r.ast.value, r) if r.ast.value is not None else [("none", None)]):
+                    if k == "param" and p == vp and kind == "bool":
+                        continue
+                    if k == "expr" and isinstance(p, ast.Call) and isinstance(p.func, ast.Name) and p.func.id == "bool" and len(p.args) == 1 \
+                            and is_value(sp, p.args[0], sp.where.get(id(p))):
+                        continue
+                    ok, why = False, "a %s value is turned into %s" % (kind, ast.unparse(p)[:40] if isinstance(p, ast.AST) else k)
+            if not rets or sp.raises():
+                why = "%s values are rejected" % kind
+            ctx.ob("bool.kinds", v, "%s value" % kind, ok, why)
+            continue
+        # strings: the two token tables, case-insensitively; anything else is rejected
+        def table_decider(outcomes):
+            base = writer_decider(an, v, vp, "str")
+
+            def decide(e, node):
+                if isinstance(e, ast.Compare) and len(e.ops) == 1 and isinstance(e.ops[0], (ast.In, ast.NotIn)) and \
+                        isinstance(e.comparators[0], ast.Attribute) and e.comparators[0].attr in outcomes:
+                    r = outcomes[e.comparators[0].attr]
+                    return r if isinstance(e.ops[0], ast.In) else (not r)
+                return base(e, node)
+            return decide
+        for tbl, const, outcomes in (("TRUE_VALUES", True, {"TRUE_VALUES": True}), ("FALSE_VALUES", False, {"TRUE_VALUES": False, "FALSE_VALUES": True})):
+            spt = Spec(an, v, table_decider(outcomes))
+            tests = [t for t in g.nodes if t.kind == "test" and t in spt.normal and isinstance(t.ast, ast.Compare) and isinstance(t.ast.ops[0], (ast.In, ast.NotIn))
+                     and isinstance(t.ast.comparators[0], ast.Attribute) and t.ast.comparators[0].attr == tbl]
+            lowered = bool(tests) and all(
+                all(k == "expr" and isinstance(p, ast.Call) and isinstance(p.func, ast.Attribute) and p.func.attr in ("lower", "casefold")
+                    and is_value(spt, p.func.value, spt.where.get(id(p))) for k, p in spt.sources(t.ast.left, t)) for t in tests)
+            consts = set()
+            for r in spt.normal_returns():
+                if r.ast.value is None:
+                    consts.add("None")
+                    continue
+                for k, p in spt.sources(r.ast.value, r):
+                    consts.add(p.value if k == "expr" and isinstance(p, ast.Constant) else "?")
+            found = lowered and len(consts) == 1 and next(iter(consts)) is const and not spt.raises()
+            ctx.ob("bool.token-maps", v, "token in %s -> %s" % (tbl, const), found, "case-insensitive tokens of %s give %s" % (tbl, const) if found else
+                   "tokens of %s are not mapped (case-insensitively) to %s (results: %s%s)" % (
+                       tbl, const, sorted(map(str, consts)), "" if lowered else "; the comparison is case-sensitive"))
+        # a string outside both tables is rejected
+        both_false = Spec(an, v, (lambda base: lambda e, node: False if (isinstance(e, ast.Compare) and isinstance(e.ops[0], ast.In)
+                                  and isinstance(e.comparators[0], ast.Attribute) and e.comparators[0].attr in ("TRUE_VALUES", "FALSE_VALUES"))
+                                  else base(e, node))(writer_decider(an, v, vp, "str")))
+        ok = not both_false.normal_returns() and not both_false.falls_off() and bool(both_false.raises())
+        ctx.ob("bool.kinds", v, "str outside the token tables", ok, "strings that are no boolean token are rejected" if ok else
+               "a string that is no boolean token can be accepted")
     nv = model.method("NumberField", "_validate")
     g = an.cfg(nv)
     vparam = nv.positional_params[2]
@@ -350,9 +402,11 @@ def check_bool_number(ctx):
     ctx.ob("number.returns-converted", nv, "return type_cls(value)", okr, "returns the converted number (the bounds are checked on it)" if okr else
            "NumberField does not return the converted number")
     for t in g.nodes:
-        if t.kind == "test" and isinstance(t.ast, ast.Compare) and any(isinstance(x, ast.Attribute) and x.attr in ("min", "max") for x in ast.walk(t.ast)) \
-                and isinstance(t.ast.ops[0], (ast.Lt, ast.Gt, ast.LtE, ast.GtE)):
-            q = t.ast.left if not isinstance(t.ast.left, ast.Attribute) else t.ast.comparators[0]
+        tx = expanded(nv, t) if t.kind == "test" and isinstance(t.ast, ast.Compare) else None
+        if tx is not None and any(isinstance(x, ast.Attribute) and x.attr in ("min", "max") for x in ast.walk(tx)) \
+                and isinstance(tx.ops[0], (ast.Lt, ast.Gt, ast.LtE, ast.GtE)):
+            qi = 0 if not isinstance(tx.left, ast.Attribute) else 1
+            q = t.ast.left if qi == 0 else t.ast.comparators[0]
             okq = isinstance(q, ast.Name) and all(k == "expr" and isinstance(pl, ast.Call) and isinstance(pl.func, ast.Attribute) and pl.func.attr == "type_cls"
                                                   for k, pl in value_sources(nv, q, t))
             ctx.ob("number.bounds-on-converted", nv, t.ast, okq, "bounds are compared with the converted number" if okq else
@@ -408,11 +462,14 @@ def check(ctx):
     check_bytes_codec(ctx)
     check_bool_number(ctx)
     check_accepts_own_result(ctx)
+    from .paths import check_filename_resolution
+    check_filename_resolution(ctx)
     # shared clauses
     sub = type(ctx)(ctx.pid, ctx.an, ctx.tier)
     c02_check_container(sub)
     c01.check_validators(sub)
     c01.check_validate_chain(sub)
+    c01.check_taint(sub)      # typed containers accept exactly the items their item field accepts
     ctx.obligations.extend(sub.obligations)
 
 
